@@ -198,7 +198,7 @@ Theorem C10_gen_remove_from_staging_steps :
   forall enq_err : bool,
   g_hook_remove_metadata = ([1], Fall) /\ g_hook_remove_metadata_body = ([1; 2], Fall) /\
   g_hook_remove_staging = ([1; 2], Fall) /\ g_hook_remove_staging_body = ([1], Fall) /\
-  g_hook_proposalq_body enq_err = (if enq_err then ([1], Cont) else ([1; 2], Fall)).
+  g_hook_proposalq_body enq_err = (if enq_err then ([1], Fall) else ([1; 2], Fall)).
 Proof. exact gen_hook_prebuild. Qed.
 Print Assumptions C10_gen_remove_from_staging_steps.
 
